@@ -139,7 +139,7 @@ def gen_ints(ctx, rnd, cases):
 def gen_floats(ctx, rnd, cases):
     """bit patterns over the whole binary64 range.  The exact decimal oracle (Float64.IsNearestDec, big
     rationals in TLC) costs 0.2-0.7 s per value at extreme exponents and a few ms in the middle, so it is
-    applied ("dec") to the named values, to two patterns of every exponent (quick: every 32nd) and to all
+    applied ("dec") to the named values, to one or two patterns of every exponent (quick: every 32nd) and to all
     patterns of moderate exponents; the remaining patterns are judged by the round trip only."""
     q = ctx.quick
     dec, nodec = set(), set()
@@ -154,8 +154,9 @@ def gen_floats(ctx, rnd, cases):
     for e in range(0, 2047):
         sign = rnd.getrandbits(1) << 63
         if not q or e % 32 == 0 or e in (1, 2046, 1023, 1075, 1076):
-            dec.add((e << 52) | rnd.choice([0, 1, (1 << 52) - 1]) | sign)
-            dec.add((e << 52) | rnd.getrandbits(52) | (sign ^ (1 << 63)))
+            dec.add((e << 52) | rnd.getrandbits(52) | sign)
+            if q or e % 4 == 0:
+                dec.add((e << 52) | rnd.choice([0, 1, (1 << 52) - 1]) | (sign ^ (1 << 63)))
         for m in [0, 1, (1 << 52) - 1, 1 << 51][: 2 if q else 4] + [rnd.getrandbits(52) for _ in range(2 if q else 20)]:
             nodec.add((e << 52) | m | (rnd.getrandbits(1) << 63))
     for _ in range(3000 if q else 40000):           # moderate exponents: 2^-70 .. 2^70
